@@ -25,36 +25,6 @@ INT64_MAX = 2 ** 63 - 1
 UNIX_TO_INTERNAL = 62135596800
 
 
-def m_taint_wrap(it, case):
-    """T1: every offending removal targets a node whose first escalator taint value parses and lies
-    in the range where time.Unix's internal second count wraps (v > 2^63-1-62135596800)."""
-    detail = it['detail'].split(':', 2)[2] if it['detail'].count(':') >= 2 else ''
-    names = set()
-    for part in detail.split(';'):
-        w = part.split()
-        if len(w) >= 2 and w[0] == 'delete':
-            names.add(w[1])
-        elif len(w) >= 4 and w[0] == 'terminate':
-            names.add(w[3])
-    if not names or '?' in names:
-        return False
-    nodes = {n['name']: n for n in case['nodes']}
-    for nm in names:
-        n = nodes.get(nm)
-        if n is None:
-            return False
-        vals = [t['value'] for t in n['taints'] if t['key'] == 'atlassian.com/escalator']
-        if not vals:
-            return False
-        try:
-            v = int(vals[0])
-        except ValueError:
-            return False
-        if not (INT64_MAX - UNIX_TO_INTERNAL < v <= INT64_MAX):
-            return False
-    return True
-
-
 def m_doc_key_timeout(it, case):
     """T4: only the documented-but-undecoded key scale_up_cool_down_timeout."""
     return it['detail'] == 'C16:key-not-honoured:scale_up_cool_down_timeout'
@@ -80,7 +50,7 @@ def m_float_short(it, case):
     return False
 
 
-MATCHERS = {'float_delta_one_short_huge': m_float_short, 'fatal_rebuild_failed': m_fatal_rebuild, 'fatal_fleet_strikes': m_fatal_strikes, 'taint_value_wraps_in_time_unix': m_taint_wrap, 'doc_key_scale_up_cool_down_timeout': m_doc_key_timeout}
+MATCHERS = {'float_delta_one_short_huge': m_float_short, 'fatal_rebuild_failed': m_fatal_rebuild, 'fatal_fleet_strikes': m_fatal_strikes, 'doc_key_scale_up_cool_down_timeout': m_doc_key_timeout}
 
 
 def match(prop, it, root):
